@@ -806,6 +806,8 @@ class Executor:
                 return And(*[self.equal(x, y, st) for x, y in zip(la, lb)])
         if isinstance(a, SymRef) and isinstance(b, SymRef):
             return a.t == b.t
+        if isinstance(a, SExc) and isinstance(b, SExc):
+            return TRUE if a is b else FALSE          # exception objects without __eq__: identity
         for x, y in ((a, b), (b, a)):
             # a symbolic name object compared with a literal: the literal's id in that name space (contracts register it)
             if isinstance(x, SymRef) and isinstance(y, SStr) and y.concrete_py() is not None:
